@@ -1,4 +1,474 @@
-From Coq Require Import List ZArith QArith Qcanon Bool Arith.
+(* JacobianProofs.v — proofs about the model in Jacobian.v.  Algebra only: K is any commutative ring. *)
+From Coq Require Import List ZArith QArith Qcanon Bool Arith Lia Ring.
 From PV Require Import Jacobian.
 Import ListNotations.
-Lemma placeholder_true : True. Proof. exact I. Qed.
+Local Open Scope nat_scope.
+
+(* ---------------------------------------------------------------------------------------------- generic facts (any ops) *)
+Lemma atom_eqb_eq a b : atom_eqb a b = true <-> a = b.
+Proof.
+  destruct a, b; cbn; split; intro H; try discriminate; try congruence.
+  - apply Nat.eqb_eq in H. congruence.
+  - inversion H. apply Nat.eqb_refl.
+  - apply andb_true_iff in H as [H1 H2]. apply Nat.eqb_eq in H1, H2. congruence.
+  - inversion H. now rewrite !Nat.eqb_refl.
+Qed.
+Lemma atom_eqb_refl a : atom_eqb a a = true.
+Proof. now apply atom_eqb_eq. Qed.
+
+Lemma pair_eqb_eq p q : pair_eqb p q = true <-> p = q.
+Proof.
+  destruct p, q; unfold pair_eqb; cbn; split; intro H.
+  - apply andb_true_iff in H as [H1 H2]. apply Nat.eqb_eq in H1, H2. congruence.
+  - inversion H. now rewrite !Nat.eqb_refl.
+Qed.
+
+Section Generic.
+  Context {K T : Type} (OT : ops T) (inj : K -> T).
+
+  Lemma subst_eval r (e : expr K) m a :
+    eval OT inj r (subst e m a) = eval OT inj (upd r (AV m) (eval OT inj r a)) e.
+  Proof.
+    induction e; cbn [subst eval]; try congruence.
+    destruct a0 as [v|v d]; cbn [subst eval]; unfold upd; cbn [atom_eqb].
+    - destruct (v =? m); reflexivity.
+    - reflexivity.
+  Qed.
+
+  (* differentiating/evaluating the expanded right-hand side = evaluating with the intermediates computed one after the other *)
+  Lemma expand_eval l : forall r (e : expr K), eval OT inj r (expand l e) = eval OT inj (run_algs OT inj l r) e.
+  Proof.
+    induction l as [|[m a] l IH]; intros r e; cbn [expand run_algs]; [reflexivity|].
+    rewrite subst_eval. apply IH.
+  Qed.
+End Generic.
+
+Lemma expand_cst {K} l (c : K) : expand l (Cst c) = Cst c.
+Proof. induction l as [|[m a] l IH]; cbn; [reflexivity|]. now rewrite IH. Qed.
+
+Lemma D_eq {K} (O : ops K) e x :
+  D O e x = if occurs x e then
+    match e with
+    | Cst _ => Cst (o0 O)
+    | At _ => Cst (o1 O)
+    | Add a b => Add (D O a x) (D O b x)
+    | Sub a b => Sub (D O a x) (D O b x)
+    | Mul a b => if occurs x a then (if occurs x b then Add (Mul (D O a x) b) (Mul a (D O b x)) else Mul (D O a x) b)
+                 else Mul a (D O b x)
+    | Neg a => Neg (D O a x)
+    | PowN a k => match k with 0 => Cst (o0 O) | S k' => Mul (Mul (Cst (ofnat O k)) (PowN a k')) (D O a x) end
+    | Fn f a => Mul (dfn O f a) (D O a x)
+    end else Cst (o0 O).
+Proof. destruct e; reflexivity. Qed.
+
+(* ---------------------------------------------------------------------------------------------- D is the derivative *)
+Section Algebra.
+  Variable K : Type.
+  Variable O : ops K.
+  Hypothesis Rth : ring_theory (o0 O) (o1 O) (oadd O) (omul O) (osub O) (oopp O) eq.
+  Add Ring Kring : Rth.
+
+  Notation ev := (eval O (fun c : K => c)).
+  Notation evD := (eval (dual_ops O) (dinj O)).
+
+  Lemma kpow_dual p k :
+    kpow (dual_ops O) p k =
+    (kpow O (fst p) k,
+     match k with 0 => o0 O | S k' => omul O (omul O (ofnat O k) (kpow O (fst p) k')) (snd p) end).
+  Proof.
+    induction k as [|k IH]; [reflexivity|].
+    cbn [kpow]. rewrite IH. cbn [dual_ops omul fst snd]. f_equal.
+    destruct k as [|k']; cbn [kpow ofnat]; ring.
+  Qed.
+
+  Lemma dfn_eval r f a : ev r (dfn O f a) = dfnI O f (ev r a).
+  Proof. destruct f; reflexivity. Qed.
+
+  Lemma not_occurs_dual r x e : occurs x e = false -> evD (seed O r x) e = (ev r e, o0 O).
+  Proof.
+    induction e; cbn [occurs eval]; intro H.
+    - reflexivity.
+    - unfold seed. now rewrite H.
+    - apply orb_false_iff in H as [H1 H2]. rewrite IHe1, IHe2 by assumption. cbn. f_equal. ring.
+    - apply orb_false_iff in H as [H1 H2]. rewrite IHe1, IHe2 by assumption. cbn. f_equal. ring.
+    - apply orb_false_iff in H as [H1 H2]. rewrite IHe1, IHe2 by assumption. cbn. f_equal. ring.
+    - rewrite IHe by assumption. cbn. f_equal. ring.
+    - rewrite IHe by assumption. rewrite kpow_dual. cbn [fst snd]. f_equal. destruct k; ring.
+    - rewrite IHe by assumption. cbn. f_equal. ring.
+  Qed.
+
+  (* Evaluating e over the dual numbers K[eps]/(eps^2) at the point r with tangent direction x gives the value of e and the
+     value of the symbolic derivative D e x: D is the (formal) derivative.  For polynomial e no function rule is involved. *)
+  Theorem D_dual r x e : evD (seed O r x) e = (ev r e, ev r (D O e x)).
+  Proof.
+    induction e; rewrite D_eq; destruct (occurs x _) eqn:Hocc;
+      try (rewrite not_occurs_dual by assumption; reflexivity).
+    - discriminate.
+    - cbn [occurs] in Hocc. cbn [eval]. unfold seed. now rewrite Hocc.
+    - cbn [eval]. rewrite IHe1, IHe2. reflexivity.
+    - cbn [eval]. rewrite IHe1, IHe2. reflexivity.
+    - cbn [occurs] in Hocc. cbn [eval]. destruct (occurs x e1) eqn:H1; [destruct (occurs x e2) eqn:H2|].
+      + rewrite IHe1, IHe2. reflexivity.
+      + rewrite IHe1, (not_occurs_dual _ _ _ H2). cbn. f_equal. ring.
+      + cbn in Hocc. rewrite IHe2, (not_occurs_dual _ _ _ H1). cbn. f_equal. ring.
+    - cbn [eval]. rewrite IHe. reflexivity.
+    - cbn [eval]. rewrite IHe, kpow_dual. cbn [fst snd]. destruct k; reflexivity.
+    - cbn [eval]. rewrite IHe. cbn [dual_ops ofn fst snd]. now rewrite dfn_eval.
+  Qed.
+
+  Corollary D_value r x e : ev r (D O e x) = snd (evD (seed O r x) e).
+  Proof. now rewrite D_dual. Qed.
+
+  (* chain rule for algebraic intermediates: differentiating AFTER substituting the intermediates (what PyRates does) equals
+     propagating value and tangent through the intermediates one after the other (what the derivative of the run function is) *)
+  Theorem D_expand_chain l r x e :
+    ev r (D O (expand l e) x) = snd (evD (run_algs (dual_ops O) (dinj O) l (seed O r x)) e).
+  Proof. now rewrite D_value, expand_eval. Qed.
+
+  (* one intermediate, written out: value part and tangent part of the substituted variable *)
+  Corollary D_subst_chain r x e m a :
+    ev r (D O (subst e m a) x) = snd (evD (upd (seed O r x) (AV m) (ev r a, ev r (D O a x))) e).
+  Proof. rewrite D_value, subst_eval. now rewrite D_dual. Qed.
+
+  (* ------------------------------------------------------------------------------------------ lists, lookup *)
+  Lemma combine_seq_In {A} (l : list A) : forall s i x,
+    In (i, x) (combine (seq s (length l)) l) <-> (s <= i /\ nth_error l (i - s) = Some x).
+  Proof.
+    induction l as [|y l IH]; intros s i x; cbn [length seq combine In].
+    - split; [tauto|]. intros [_ H]. destruct (i - s); discriminate.
+    - rewrite IH. split.
+      + intros [H|[H1 H2]].
+        * inversion H; subst. split; [lia|]. now rewrite Nat.sub_diag.
+        * split; [lia|]. replace (i - s) with (S (i - S s)) by lia. exact H2.
+      + intros [H1 H2]. destruct (Nat.eq_dec i s) as [->|Hne].
+        * left. rewrite Nat.sub_diag in H2. cbn in H2. congruence.
+        * right. split; [lia|]. replace (i - s) with (S (i - S s)) in H2 by lia. exact H2.
+  Qed.
+  Lemma enumerate_In {A} (l : list A) i x : In (i, x) (enumerate l) <-> nth_error l i = Some x.
+  Proof. unfold enumerate. rewrite combine_seq_In, Nat.sub_0_r. split; [tauto|]. intro; split; [lia|assumption]. Qed.
+
+  Lemma lookup_Some_In k (l : entries K) e : lookup k l = Some e -> In (k, e) l.
+  Proof.
+    induction l as [|[k' e'] l IH]; cbn [lookup]; [discriminate|].
+    destruct (lookup k l) eqn:E.
+    - intro H; inversion H; subst. right. now apply IH.
+    - destruct (pair_eqb k k') eqn:Ek; [|discriminate]. intro H; inversion H; subst.
+      apply pair_eqb_eq in Ek. subst. now left.
+  Qed.
+  Lemma lookup_In_some k (l : entries K) e : In (k, e) l -> exists x, lookup k l = Some x.
+  Proof.
+    induction l as [|[k' e'] l IH]; cbn [lookup In]; [tauto|]. intros [H|H].
+    - inversion H; subst. destruct (lookup k l); [eauto|]. rewrite (proj2 (pair_eqb_eq k k) eq_refl). eauto.
+    - destruct (IH H) as [x ->]. eauto.
+  Qed.
+  Lemma lookup_unique k (l : entries K) e :
+    In (k, e) l -> (forall e', In (k, e') l -> e' = e) -> lookup k l = Some e.
+  Proof.
+    intros Hin Hu. destruct (lookup_In_some _ _ _ Hin) as [x Hx]. rewrite Hx. f_equal.
+    apply Hu. now apply lookup_Some_In.
+  Qed.
+  Lemma lookup_none k (l : entries K) : (forall e, ~ In (k, e) l) -> lookup k l = None.
+  Proof.
+    intro H. destruct (lookup k l) eqn:E; [|reflexivity]. apply lookup_Some_In in E. now apply H in E.
+  Qed.
+
+  Lemma pos_nth v l : forall j, pos v l = Some j -> nth_error l j = Some v.
+  Proof.
+    induction l as [|y l IH]; cbn [pos]; intros j; [discriminate|].
+    destruct (y =? v) eqn:E.
+    - intro H; inversion H; subst. apply Nat.eqb_eq in E. now subst.
+    - destruct (pos v l) as [j'|]; cbn; [|discriminate]. intro H; inversion H; subst. cbn. now apply IH.
+  Qed.
+  Lemma memb_In x l : memb Nat.eqb x l = true <-> In x l.
+  Proof.
+    induction l as [|y l IH]; cbn; [split; [discriminate|tauto]|].
+    rewrite orb_true_iff, IH, Nat.eqb_eq. split; intros [H|H]; auto.
+  Qed.
+  Lemma nodup_pos l : nodupb l = true -> forall j v, nth_error l j = Some v -> pos v l = Some j.
+  Proof.
+    induction l as [|y l IH]; cbn [nodupb pos]; intros Hn j v Hj; [destruct j; discriminate|].
+    apply andb_true_iff in Hn as [Hy Hn]. destruct j as [|j]; cbn in Hj.
+    - inversion Hj; subst. now rewrite Nat.eqb_refl.
+    - destruct (y =? v) eqn:E.
+      + apply Nat.eqb_eq in E; subst. apply nth_error_In in Hj. apply memb_In in Hj. rewrite Hj in Hy. discriminate.
+      + now rewrite (IH Hn j v Hj).
+  Qed.
+
+  Lemma dedup_In {A} (eqb : A -> A -> bool) (Heq : forall a b, eqb a b = true <-> a = b) l x :
+    In x (dedup eqb l) <-> In x l.
+  Proof.
+    induction l as [|y l IH]; cbn [dedup In]; [tauto|].
+    rewrite filter_In, IH. split.
+    - intros [H|[H _]]; auto.
+    - intros [H|H]; auto. destruct (eqb x y) eqn:E.
+      + left. symmetry. now apply Heq.
+      + right. split; [assumption|]. reflexivity.
+  Qed.
+
+  Lemma occurs_past_atoms v d (e : expr K) : occurs (AP v d) e = true <-> In (v, d) (past_atoms e).
+  Proof.
+    induction e; cbn [occurs past_atoms]; try rewrite orb_true_iff, in_app_iff; try tauto.
+    - split; [discriminate|intros []].
+    - destruct a as [w|w d']; cbn [atom_eqb In].
+      + split; [discriminate|intros []].
+      + rewrite andb_true_iff, !Nat.eqb_eq. split; [intros [-> ->]; now left|].
+        intros [H|[]]. inversion H; auto.
+  Qed.
+
+  (* ------------------------------------------------------------------------------------------ absv-free models *)
+  Lemma no_abs_unresolved x (e : expr K) : has_abs e = false -> unresolved x e = false.
+  Proof.
+    induction e; cbn [has_abs unresolved]; intro H; destruct (occurs x _); try reflexivity;
+      try (apply orb_false_iff in H as [H1 H2]; now rewrite IHe1, IHe2); auto.
+    - destruct k; auto.
+    - destruct f; auto; discriminate.
+  Qed.
+  Lemma has_abs_subst (e : expr K) m a : has_abs e = false -> has_abs a = false -> has_abs (subst e m a) = false.
+  Proof.
+    intros He Ha. induction e; cbn [has_abs subst] in *; try reflexivity;
+      try (apply orb_false_iff in He as [H1 H2]; now rewrite IHe1, IHe2); auto.
+    - destruct a0; [destruct (v =? m)|]; auto.
+    - destruct f; auto; discriminate.
+  Qed.
+  Lemma has_abs_expand l (e : expr K) :
+    forallb (fun ma => negb (has_abs (snd ma))) l = true -> has_abs e = false -> has_abs (expand l e) = false.
+  Proof.
+    induction l as [|[m a] l IH]; cbn [forallb expand snd]; intros Hl He; [assumption|].
+    apply andb_true_iff in Hl as [Ha Hl]. apply negb_true_iff in Ha. apply has_abs_subst; auto.
+  Qed.
+  Lemma no_absv_fexprs (s : sys K) f x : no_absv s = true -> In f (fexprs s) -> unresolved x f = false.
+  Proof.
+    unfold no_absv, fexprs. intros H Hin. apply andb_true_iff in H as [Hr Ha].
+    apply in_map_iff in Hin as [e [<- He]]. apply no_abs_unresolved, has_abs_expand; [assumption|].
+    rewrite forallb_forall in Hr. apply negb_true_iff. now apply Hr.
+  Qed.
+
+  (* ------------------------------------------------------------------------------------------ placement *)
+  Lemma j0_entries_In st (fs : list (expr K)) i j e :
+    In ((i, j), e) (j0_entries O st fs) <->
+    exists f y, nth_error fs i = Some f /\ nth_error st j = Some y /\
+                occurs (AV y) f && negb (unresolved (AV y) f) = true /\ e = D O f (AV y).
+  Proof.
+    unfold j0_entries. rewrite in_flat_map. split.
+    - intros [[i' f] [Hf H]]. apply in_flat_map in H as [[j' y] [Hy H]].
+      destruct (occurs (AV y) f && negb (unresolved (AV y) f)) eqn:C; [|destruct H].
+      destruct H as [H|[]]. inversion H; subst. apply enumerate_In in Hf, Hy. exists f, y. auto.
+    - intros [f [y [Hf [Hy [C ->]]]]]. exists (i, f). split; [now apply enumerate_In|].
+      apply in_flat_map. exists (j, y). split; [now apply enumerate_In|]. rewrite C. now left.
+  Qed.
+
+  Definition resolved (fs : list (expr K)) := forall f x, In f fs -> unresolved x f = false.
+
+  (* entry (i, j) of the assembled instantaneous matrix is D f_i y_j, for any number of state variables *)
+  Theorem mat_j0 st (fs : list (expr K)) : resolved fs -> length fs = length st ->
+    mat O (length st) (j0_entries O st fs) =
+    map (fun i => map (fun j => D O (nth i fs (Cst (o0 O))) (AV (nth j st 0))) (seq 0 (length st))) (seq 0 (length st)).
+  Proof.
+    intros Hres Hlen. unfold mat. apply map_ext_in. intros i Hi. apply map_ext_in. intros j Hj.
+    apply in_seq in Hi, Hj. set (f := nth i fs (Cst (o0 O))). set (y := nth j st 0).
+    assert (Hf : nth_error fs i = Some f) by (apply nth_error_nth'; lia).
+    assert (Hy : nth_error st j = Some y) by (apply nth_error_nth'; lia).
+    assert (Hr : unresolved (AV y) f = false) by (apply Hres; eapply nth_error_In; eassumption).
+    destruct (occurs (AV y) f) eqn:Hocc.
+    - rewrite (lookup_unique (i, j) _ (D O f (AV y))); [reflexivity| |].
+      + apply j0_entries_In. exists f, y. rewrite Hocc, Hr. auto.
+      + intros e' H. apply j0_entries_In in H as [f' [y' [Hf' [Hy' [_ ->]]]]]. congruence.
+    - rewrite lookup_none.
+      + rewrite (D_eq O f), Hocc. reflexivity.
+      + intros e H. apply j0_entries_In in H as [f' [y' [Hf' [Hy' [C _]]]]].
+        assert (f' = f) by congruence. assert (y' = y) by congruence. subst. rewrite Hocc in C. discriminate.
+  Qed.
+
+  Lemma hist_entries_In st (fs : list (expr K)) d i j e :
+    In ((i, j), e) (hist_entries O true st fs d) <->
+    exists f v, nth_error fs i = Some f /\ In (v, d) (past_map fs) /\ pos v st = Some j /\
+                occurs (AP v d) f && negb (unresolved (AP v d) f) = true /\ e = D O f (AP v d).
+  Proof.
+    unfold hist_entries. rewrite in_flat_map. split.
+    - intros [[i' f] [Hf H]]. apply in_flat_map in H as [[c [v d']] [Hc H]].
+      apply enumerate_In in Hc. apply nth_error_In in Hc. apply filter_In in Hc as [Hg _].
+      unfold group in Hg. apply filter_In in Hg as [Hpm Hd]. cbn in Hd. apply Nat.eqb_eq in Hd. subst d'.
+      destruct (pos v st) as [vidx|] eqn:Hp; [|destruct H].
+      destruct (occurs (AP v d) f && negb (unresolved (AP v d) f)) eqn:C; [|destruct H].
+      destruct H as [H|[]]. inversion H; subst. apply enumerate_In in Hf. exists f, v. auto.
+    - intros [f [v [Hf [Hpm [Hp [C ->]]]]]]. exists (i, f). split; [now apply enumerate_In|].
+      assert (Hin : In (v, d) (filter (fun p => match pos (fst p) st with Some _ => true | None => false end) (group fs d))).
+      { apply filter_In. split; [|cbn; now rewrite Hp]. unfold group. apply filter_In. split; [assumption|]. cbn. apply Nat.eqb_refl. }
+      apply In_nth_error in Hin as [c Hc]. apply in_flat_map. exists (c, (v, d)). split; [now apply enumerate_In|].
+      rewrite Hp, C. now left.
+  Qed.
+
+  (* entry (i, j) of the history matrix of delay d is D f_i (y_j delayed by d): the column is the state index of the delayed
+     variable, whatever its position inside the delay group *)
+  Theorem mat_hist st (fs : list (expr K)) d : resolved fs -> length fs = length st -> nodupb st = true ->
+    mat O (length st) (hist_entries O true st fs d) =
+    map (fun i => map (fun j => D O (nth i fs (Cst (o0 O))) (AP (nth j st 0) d)) (seq 0 (length st))) (seq 0 (length st)).
+  Proof.
+    intros Hres Hlen Hnd. unfold mat. apply map_ext_in. intros i Hi. apply map_ext_in. intros j Hj.
+    apply in_seq in Hi, Hj. set (f := nth i fs (Cst (o0 O))). set (y := nth j st 0).
+    assert (Hf : nth_error fs i = Some f) by (apply nth_error_nth'; lia).
+    assert (Hy : nth_error st j = Some y) by (apply nth_error_nth'; lia).
+    assert (Hr : unresolved (AP y d) f = false) by (apply Hres; eapply nth_error_In; eassumption).
+    destruct (occurs (AP y d) f) eqn:Hocc.
+    - rewrite (lookup_unique (i, j) _ (D O f (AP y d))); [reflexivity| |].
+      + apply hist_entries_In. exists f, y. rewrite Hocc, Hr. repeat split; auto.
+        * unfold past_map. apply dedup_In; [apply pair_eqb_eq|]. apply in_flat_map. exists f. split.
+          -- eapply nth_error_In; eassumption.
+          -- now apply occurs_past_atoms.
+        * now apply nodup_pos.
+      + intros e' H. apply hist_entries_In in H as [f' [v [Hf' [_ [Hp [_ ->]]]]]].
+        apply pos_nth in Hp. assert (v = y) by congruence. assert (f' = f) by congruence. now subst.
+    - rewrite lookup_none.
+      + rewrite (D_eq O f), Hocc. reflexivity.
+      + intros e H. apply hist_entries_In in H as [f' [v [Hf' [_ [Hp [C _]]]]]].
+        apply pos_nth in Hp. assert (v = y) by congruence. assert (f' = f) by congruence. subst.
+        rewrite Hocc in C. discriminate.
+  Qed.
+
+  (* ------------------------------------------------------------------------------------------ Impl = Spec *)
+  Lemma partial_nth (s : sys K) r x i :
+    nth i (partials O s r x) (o0 O) = ev r (D O (nth i (fexprs s) (Cst (o0 O))) x).
+  Proof.
+    unfold partials, vf, fexprs. rewrite map_map.
+    set (g := fun e : expr K => snd (evD (run_algs (dual_ops O) (dinj O) (algs s) (seed O r x)) e)).
+    change (o0 O) with (g (Cst (o0 O))) at 1. rewrite map_nth.
+    rewrite <- (expand_cst (algs s) (o0 O)) at 2. rewrite map_nth. unfold g. now rewrite D_expand_chain.
+  Qed.
+
+  Lemma eval_mat_spec (s : sys K) r (mk : nat -> atom) :
+    eval_mat O r (map (fun i => map (fun j => D O (nth i (fexprs s) (Cst (o0 O))) (mk (nth j (states s) 0)))
+                                    (seq 0 (length (states s)))) (seq 0 (length (states s))))
+    = spec_mat O s r mk.
+  Proof.
+    unfold eval_mat, spec_mat. rewrite map_map. apply map_ext. intro i. rewrite map_map. apply map_ext. intro j.
+    now rewrite partial_nth.
+  Qed.
+
+  Lemma wf_parts (s : sys K) : wf s = true ->
+    nodupb (states s) = true /\ length (fexprs s) = length (states s) /\ past_vars_are_states s = true.
+  Proof.
+    unfold wf. intro H. apply andb_true_iff in H as [H H3]. apply andb_true_iff in H as [H1 H2].
+    apply Nat.eqb_eq in H2. unfold fexprs. rewrite map_length. auto.
+  Qed.
+
+  (* Within the guards, the matrices that get_jacobian_func builds (expansion of intermediates, symbolic derivative, placement
+     through the entry dictionaries) are the partial derivatives of the vector field that get_run_func evaluates, with respect
+     to the state vector now (J0) and delayed by each distinct delay, in the state ordering. *)
+  Theorem jac_refines (s : sys K) r :
+    wf s = true -> no_absv s = true -> no_delayed_factor_in_j0 O s = true -> jac_impl O s r = jac_spec O s r.
+  Proof.
+    intros Hwf Habs Hg. destruct (wf_parts s Hwf) as [Hnd [Hlen _]].
+    assert (Hres : resolved (fexprs s)) by (intros f x Hin; now apply (no_absv_fexprs s)).
+    unfold jac_impl, jac_impl_gen, jac_sym, jac_spec.
+    unfold no_delayed_factor_in_j0 in Hg. apply negb_true_iff in Hg. rewrite Hg.
+    rewrite mat_j0 by assumption. rewrite (eval_mat_spec s r AV). f_equal.
+    rewrite map_map. apply map_ext. intro d. cbn [fst snd].
+    rewrite mat_hist by assumption. now rewrite (eval_mat_spec s r (fun v => AP v d)).
+  Qed.
+
+  (* completeness of the list of history matrices: with respect to a delay that is not in the list every partial derivative is 0 *)
+  Lemma delays_In fs d : In d (delays fs) <-> exists v, In (v, d) (@past_map K fs).
+  Proof.
+    unfold delays. rewrite dedup_In by apply Nat.eqb_eq. rewrite in_map_iff. split.
+    - intros [[v d'] [<- H]]. eauto.
+    - intros [v H]. exists (v, d). auto.
+  Qed.
+  Theorem spec_Jd_zero (s : sys K) r d : ~ In d (delays (fexprs s)) ->
+    spec_Jd O s r d = map (fun _ => map (fun _ => o0 O) (seq 0 (length (states s)))) (seq 0 (length (states s))).
+  Proof.
+    intro Hn. unfold spec_Jd, spec_mat. apply map_ext. intro i. apply map_ext. intro j.
+    rewrite partial_nth. rewrite D_eq.
+    destruct (occurs _ _) eqn:Hocc; [|reflexivity]. exfalso. apply Hn. apply delays_In.
+    exists (nth j (states s) 0). unfold past_map. apply dedup_In; [apply pair_eqb_eq|].
+    apply in_flat_map. exists (nth i (fexprs s) (Cst (o0 O))). split; [|now apply occurs_past_atoms].
+    destruct (Nat.lt_ge_cases i (length (fexprs s))) as [Hlt|Hge]; [now apply nth_In|].
+    rewrite (nth_overflow _ _ Hge) in Hocc. discriminate.
+  Qed.
+End Algebra.
+
+(* ---------------------------------------------------------------------------------------------- K := Qc *)
+Lemma QcO_ring : ring_theory (o0 QcO) (o1 QcO) (oadd QcO) (omul QcO) (osub QcO) (oopp QcO) eq.
+Proof. exact Qcrt. Qed.
+
+(* the full statement of the property on the model, without the two guards *)
+Definition C12_full_statement : Prop :=
+  forall (s : sys Qc) (r : atom -> Qc), wf s = true -> jac_impl QcO s r = jac_spec QcO s r.
+
+Theorem jac_refines_Qc (s : sys Qc) r :
+  wf s = true -> no_absv s = true -> no_delayed_factor_in_j0 QcO s = true -> jac_impl QcO s r = jac_spec QcO s r.
+Proof. exact (jac_refines Qc QcO QcO_ring s r). Qed.
+
+(* ---------------------------------------------------------------------------------------------- witnesses *)
+Definition V (i : nat) : expr Qc := At (AV i).
+Definition cQ (a : Z) (b : positive) : expr Qc := Cst (mkq a b).
+Definition entry (i j : nat) (x : Qc) (res : result (list (list Qc))) : bool :=
+  match res with Ok j0 _ => Qeq_bool (this (nth j (nth i j0 []) (mkq 77 1))) (this x) | NameErr => false end.
+
+(* D08b: x' = -x + z, z' = x * past(z, tau) - z  (variables 0 = x, 1 = z, 2 = tau).  d z'/d x = past(z, tau) is an instantaneous
+   entry with a delayed factor: the generated function names the undefined `_past_z_tau` and raises NameError. *)
+Definition w_delayed : sys Qc :=
+  mksys [0; 1] [Add (Neg (V 0)) (V 1); Sub (Mul (V 0) (At (AP 1 2))) (V 1)] [].
+Definition w_delayed_env : atom -> Qc :=
+  env [0; 1] [(0, mkq 1 2); (1, mkq 1 4); (2, mkq 1 2)] [(2, [mkq 1 2; mkq 3 4])].
+Lemma w_delayed_facts :
+  wf w_delayed = true /\ no_absv w_delayed = true /\ no_delayed_factor_in_j0 QcO w_delayed = false /\
+  jac_impl QcO w_delayed w_delayed_env = NameErr /\
+  jac_spec QcO w_delayed w_delayed_env =
+    Ok [[mkq (-1) 1; mkq 1 1]; [mkq 3 4; mkq (-1) 1]] [(2, [[mkq 0 1; mkq 0 1]; [mkq 0 1; mkq 1 2]])].
+Proof. repeat split; vm_compute; reflexivity. Qed.
+
+(* absv: x' = absv(x) + z, z' = -z.  d x'/d x = sign(x) = 1 at x = 1/2; the generated function leaves the entry 0. *)
+Definition w_absv : sys Qc := mksys [0; 1] [Add (Fn FAbs (V 0)) (V 1); Neg (V 1)] [].
+Definition w_absv_env : atom -> Qc := env [0; 1] [(0, mkq 1 2); (1, mkq 1 4)] [].
+Lemma w_absv_facts :
+  wf w_absv = true /\ no_absv w_absv = false /\ no_delayed_factor_in_j0 QcO w_absv = true /\
+  jac_impl QcO w_absv w_absv_env = Ok [[mkq 0 1; mkq 1 1]; [mkq 0 1; mkq (-1) 1]] [] /\
+  jac_spec QcO w_absv w_absv_env = Ok [[mkq 1 1; mkq 1 1]; [mkq 0 1; mkq (-1) 1]] [].
+Proof. repeat split; vm_compute; reflexivity. Qed.
+
+Theorem full_statement_refuted_delayed : ~ C12_full_statement.
+Proof.
+  intro H. specialize (H w_delayed w_delayed_env (proj1 w_delayed_facts)).
+  destruct w_delayed_facts as [_ [_ [_ [HI HS]]]]. rewrite HI, HS in H. discriminate.
+Qed.
+Theorem full_statement_refuted_absv : ~ C12_full_statement.
+Proof.
+  intro H. specialize (H w_absv w_absv_env (proj1 w_absv_facts)).
+  apply (f_equal (entry 0 0 (mkq 1 1))) in H. vm_compute in H. discriminate.
+Qed.
+
+(* the code before fix D08: x' = -x, z' = k * past(z, tau) (0 = x, 1 = z, 2 = k, 3 = tau): the entry d z'/d z(t - tau) = k was
+   written to column 0 (position of z inside its delay group) instead of column 1 (position of z in the state vector) *)
+Definition w_d08 : sys Qc := mksys [0; 1] [Neg (V 0); Mul (V 2) (At (AP 1 3))] [].
+Definition w_d08_env : atom -> Qc := env [0; 1] [(0, mkq 1 2); (1, mkq 1 4); (2, mkq 3 2); (3, mkq 1 2)] [(3, [mkq 1 2; mkq 3 4])].
+Lemma w_d08_facts :
+  wf w_d08 = true /\ no_absv w_d08 = true /\ no_delayed_factor_in_j0 QcO w_d08 = true /\
+  jac_impl_preD08 QcO w_d08 w_d08_env = Ok [[mkq (-1) 1; mkq 0 1]; [mkq 0 1; mkq 0 1]] [(3, [[mkq 0 1; mkq 0 1]; [mkq 3 2; mkq 0 1]])] /\
+  jac_impl QcO w_d08 w_d08_env = Ok [[mkq (-1) 1; mkq 0 1]; [mkq 0 1; mkq 0 1]] [(3, [[mkq 0 1; mkq 0 1]; [mkq 0 1; mkq 3 2]])] /\
+  jac_spec QcO w_d08 w_d08_env = jac_impl QcO w_d08 w_d08_env.
+Proof. repeat split; vm_compute; reflexivity. Qed.
+Theorem preD08_refuted : exists s r, wf s = true /\ no_absv s = true /\ no_delayed_factor_in_j0 QcO s = true /\
+  jac_impl_preD08 QcO s r <> jac_spec QcO s r.
+Proof.
+  exists w_d08, w_d08_env. destruct w_d08_facts as [H1 [H2 [H3 [H4 [H5 H6]]]]]. repeat split; try assumption.
+  rewrite H6, H4, H5. intro H. apply (f_equal (fun res => match res with Ok _ ((_, m) :: _) => Qeq_bool (this (nth 0 (nth 1 m []) 0%Qc)) 0%Q | _ => true end)) in H.
+  vm_compute in H. discriminate.
+Qed.
+
+(* non-vacuity: two nodes, three state variables (0 = A.x, 1 = A.z, 2 = B.x), parameters 3 = a, 4 = tau, intermediates
+   5 = B.s_in := 2 * A.z + (1/2) * past(A.x, lit 1000), 6 = A.m := A.x * A.z + a;
+   A.x' = -A.x + (A.m)^2, A.z' = A.x - a * past(A.z, tau), B.x' = B.s_in - (B.x)^3 *)
+Definition w_ok : sys Qc :=
+  mksys [0; 1; 2]
+        [Add (Neg (V 0)) (PowN (V 6) 2); Sub (V 0) (Mul (V 3) (At (AP 1 4))); Sub (V 5) (PowN (V 2) 3)]
+        [(5, Add (Mul (cQ 2 1) (V 1)) (Mul (cQ 1 2) (At (AP 0 1000)))); (6, Add (Mul (V 0) (V 1)) (V 3))].
+Definition w_ok_env : atom -> Qc :=
+  env [0; 1; 2] [(0, mkq 1 2); (1, mkq 1 4); (2, mkq (-1) 1); (3, mkq 3 2); (4, mkq 1 2)]
+      [(4, [mkq 1 1; mkq 2 1; mkq 3 1]); (1000, [mkq 5 1; mkq 6 1; mkq 7 1])].
+Lemma w_ok_facts :
+  wf w_ok = true /\ no_absv w_ok = true /\ no_delayed_factor_in_j0 QcO w_ok = true /\
+  jac_impl QcO w_ok w_ok_env =
+    Ok [[mkq (-3) 16; mkq 13 8; mkq 0 1]; [mkq 1 1; mkq 0 1; mkq 0 1]; [mkq 0 1; mkq 2 1; mkq (-3) 1]]
+       [(4, [[mkq 0 1; mkq 0 1; mkq 0 1]; [mkq 0 1; mkq (-3) 2; mkq 0 1]; [mkq 0 1; mkq 0 1; mkq 0 1]]);
+        (1000, [[mkq 0 1; mkq 0 1; mkq 0 1]; [mkq 0 1; mkq 0 1; mkq 0 1]; [mkq 1 2; mkq 0 1; mkq 0 1]])].
+Proof. repeat split; vm_compute; reflexivity. Qed.
